@@ -106,6 +106,13 @@ TUpdateZero == IsEvent("UpdateZero") /\ LET e == Log[l] IN
           /\ GeneratedOK(e, obj[e.id].cnt)
           /\ SetLg(e.id, e.lgCur)
           /\ UNCHANGED blob
+TUpdateRefused == IsEvent("UpdateRefused") /\ LET e == Log[l] IN
+          /\ UpdateRefused(e.id)
+          /\ Chk("refused-update-throws", e.outcome = "throw")
+          /\ Chk("refused-update-changes-nothing", NoChange(e))
+          /\ Scalars(e, obj[e.id])
+          /\ (IF CheckDesign THEN Chk("B:design-lg-cur", e.lgCur = lgc[e.id]) ELSE TRUE)
+          /\ UNCHANGED <<blob, lgc>>
 TMerge == IsEvent("Merge") /\ LET e == Log[l]
                                   c2 == NewRows(obj[e.dst].cnt, e)
                                   n == MergePost(obj[e.dst], obj[e.src], c2, e.off) IN
@@ -162,7 +169,14 @@ TSer == IsEvent("Ser") /\ LET e == Log[l] IN
           /\ Chk("C09:header", e.tot = e.hdr + e.size /\ e.img = e.img0)
           /\ blob' = (e.blob :> [st |-> obj[e.src], cimg |-> e.cimg, size |-> e.size, lgCur |-> lgc[e.src]]) @@ blob
           /\ UNCHANGED <<obj, lgc>>
-TDeser == IsEvent("Deser") /\ LET e == Log[l]  b == blob[e.blob] IN
+TDeser == IsEvent("Deser") /\ LET e == Log[l]  b == blob[e.blob]  rf == RowsFn(e) IN
+          \* the statement of C12 itself holds "after any merges or round-trips": the bounds of a restored sketch still bracket the
+          \* ground truth of everything offered before the round trip, and its total weight is still the exact sum
+          /\ Chk("C12:after-round-trip",
+                 /\ e.total = b.st.total
+                 /\ \A x \in DOMAIN b.st.truth : IF x \in DOMAIN rf THEN NLeq(rf[x], b.st.truth[x]) /\ NLeq(b.st.truth[x], NAdd(rf[x], e.off))
+                                                                     ELSE NLeq(b.st.truth[x], e.off)
+                 /\ \A x \in DOMAIN rf : x \in DOMAIN b.st.truth)
           /\ Chk("C09:total-weight", e.total = b.st.total)
           /\ Chk("C09:maximum-error", e.off = b.st.offset)
           /\ Chk("driver:dense-rows", DenseOK(e))
@@ -182,6 +196,6 @@ TTwinObs == IsEvent("TwinObs") /\ LET e == Log[l]  a == obj[e.a]  b == obj[e.b] 
           /\ UNCHANGED <<obj, blob, lgc>>
 
 TInit == obj = <<>> /\ l = 1 /\ blob = <<>> /\ lgc = <<>>
-TNext == TBegin \/ TNew \/ TUpdate \/ TUpdateZero \/ TMerge \/ TObs \/ TCopy \/ TDrop \/ TSer \/ TDeser \/ TTwinObs
+TNext == TBegin \/ TNew \/ TUpdate \/ TUpdateZero \/ TUpdateRefused \/ TMerge \/ TObs \/ TCopy \/ TDrop \/ TSer \/ TDeser \/ TTwinObs
 TSpec == TInit /\ [][TNext]_tvars
 ====
